@@ -323,6 +323,10 @@ ThisBinding(th) ==        \* th: [k |-> "undef"|"null"|"objO"|"gonil"] or [k |->
       [] th.k = "objO" -> [k |-> "O"]
       [] th.k = "prim" -> [k |-> "boxed", v |-> ToJS(th.g)]
 CallObs(th, args) == [th |-> ThisBinding(th), a |-> [i \in 1..Len(args) |-> ToJS(args[i])]]
+(* failing calls: the callee throws (the exception is the error of the API     *)
+(* call), the value is not callable (11.2.3 step 5: TypeError), the name does  *)
+(* not resolve (8.7.1: ReferenceError)                                          *)
+CallErr(what) == CASE what = "throws" -> "RangeError" [] what = "notcallable" -> "TypeError" [] what = "unresolvable" -> "ReferenceError"
 
 -----------------------------------------------------------------------------
 (* C16: JavaScript argument -> Go parameter (runtime.go convertCallParameter,*)
@@ -658,6 +662,31 @@ SliceStep(st, op) ==
                      ELSE SR([st EXCEPT !.js = grown, !.done = TRUE], "", IntV(op.n))
       [] op.op = "gowrite" -> SR(both(Upd(st.go, op.i + 1, op.g)), "", Undef)
       [] op.op = "goappend" -> SR(grow(Append(st.go, op.g)), "", Undef)
+
+(* ---- Go arrays ([2]K) --------------------------------------------------------- *)
+(* state [k, ptr, go] : a fixed-length Go array, bridged through a pointer (ptr,   *)
+(* elements writable) or by value (a read-only copy: the elements and length are   *)
+(* non-writable properties, so assignments are ignored in non-strict code 8.12.5   *)
+(* and delete is false 8.12.7).  length is not writable; push therefore throws     *)
+(* (15.4.4.7 step 6: [[Put]] with Throw = true).                                    *)
+ArrayStep(st, op) ==
+    LET n == Len(st.go) IN
+    CASE op.op = "jsread" -> SR(st, "", IF op.i < n THEN ElemJS(st.go[op.i + 1]) ELSE Undef)
+      [] op.op = "jslen" -> SR(st, "", IntV(n))
+      [] op.op = "jswrite" ->
+            IF ~st.ptr \/ op.i >= n THEN SR(st, "", op.v)                      \* read-only copy / no such element: rejected silently
+            ELSE LET r == ElemConv(op.v, st.k)
+                 IN  IF r.thr # "" THEN SR(st, r.thr, Undef)
+                     ELSE IF IsInvalid(r) THEN SR(st, InvalidErr, Undef)
+                     ELSE SR([st EXCEPT !.go = Upd(st.go, op.i + 1, r.g)], "", op.v)
+      [] op.op = "jsdelete" ->
+            IF op.i >= n THEN SR(st, "", BoolV(~D("D16_slice_delete_missing_index_returns_false")))     \* type_go_array.go goArrayDelete: same rule as goSliceDelete
+            ELSE IF ~st.ptr THEN SR(st, "", BoolV(FALSE))
+            ELSE SR([st EXCEPT !.go = Upd(st.go, op.i + 1, ZeroElem(st.k))], "", BoolV(TRUE))
+      [] op.op = "jssetlen" -> SR(st, "", IntV(op.n))                            \* length is not writable: ignored
+      [] op.op = "jspush" -> SR(st, "TypeError", Undef)
+      [] op.op = "gowrite" -> SR([st EXCEPT !.go = Upd(st.go, op.i + 1, op.g)], "", Undef)
+ArrayObs(st) == [js |-> JArr([i \in 1..Len(st.go) |-> ElemJS(st.go[i])]), go |-> st.go]
 
 (* ---- maps (map[string]K) --------------------------------------------------- *)
 (* state [k, keys, vals] (keys sorted).  Operations: jsread/jswrite/jsdelete  *)
